@@ -7,6 +7,7 @@ it on Python lists and dicts, whose object identity stands for container identit
             | for [_, e] in [v] { u = e } | u = [v] | u = {"k": v}              (the last two: fresh holder, shared element)
     build   u = 0 .. 2
     copy    u = [v..] | u = {v..} | u = v + [] | u = [] + v | u = v[:] | u = v[0:1] | [..u] = v | {..u} = v | u += [k]
+            | u[0] += [k] | u.k += [k]   (a new list is stored in the slot)
     mutate  u[0] = k | u.k = k | u[0:1] = [k] | u["k"] = k | setf(u, k) | u[0] += 1 | u[0][0] = k (through a stored child)
     observe print of every variable, `===` between every pair of variables of the same kind and between every stored
             child and every variable, after every operation
@@ -132,6 +133,10 @@ def ops(env, k):
             out.append(("mutate:element-op-assign", f"{slot_txt(u, cu)} += 1", lambda e, u=u: set_slot(e[u], slot(e[u]) + 1)))
         else:
             out.append(("mutate:through-child", f"{slot_txt(slot_txt(u, cu), s)} = {k}", lambda e, u=u: set_slot(slot(e[u]), k)))
+            if isinstance(s, list) and len(s) < 3:
+                # `u[0] += [k]` / `u.k += [k]` stores a *new* list in the slot; other aliases of the old child keep the old one
+                out.append(("copy:slot-op-assign", f"{slot_txt(u, cu)} += [{k}]",
+                            lambda e, u=u: set_slot(e[u], slot(e[u]) + [k])))
     return out
 
 
